@@ -266,10 +266,13 @@ def sem_form(op, ra, rb, order, truth):
 # ------------------------------------------------------------------------------------------------
 # lookup scenario table (C06-E1/P1, C15-E1/E2, C07-E1, C08-E1, C03 for lookups, C01-P1 return shape)
 # ------------------------------------------------------------------------------------------------
-def lookup_scenarios(ctx):
-    """rows: dict(flavour, fields, scenario, outcomes=set((ret, vec)), nodes, sites)"""
-    if hasattr(ctx, '_lookup_rows'):
-        return ctx._lookup_rows
+def lookup_scenarios(ctx, member_free=False):
+    """rows: dict(flavour, fields, scenario, outcomes=set((ret, vec)), nodes, sites).
+    member_free: membership re-checks (`contains_key`) are left open, so paths on which a concurrent caller has
+    already removed the key are explored too (used where *every* path counts, e.g. statistics)"""
+    attr = '_lookup_rows_free' if member_free else '_lookup_rows'
+    if hasattr(ctx, attr):
+        return getattr(ctx, attr)
     C = Core(ctx)
     rows = []
     anchors = {}
@@ -288,8 +291,9 @@ def lookup_scenarios(ctx):
                 orc = {}
                 for s in found:
                     orc[s] = f
-                for s in member:
-                    orc[s] = 1
+                if not member_free:
+                    for s in member:
+                        orc[s] = 1
                 if e is not None:
                     for s in expiry:
                         if len(s) == 2:
@@ -309,8 +313,8 @@ def lookup_scenarios(ctx):
                         outs.add((rv, v))
                 rows.append({'flavour': flav, 'fields': a, 'scenario': sname, 'outcomes': outs, 'nodes': len(sp.nodes),
                              'truncated': sp.truncated, 'fn': get})
-    ctx._lookup_rows = (rows, anchors)
-    return ctx._lookup_rows
+    setattr(ctx, attr, (rows, anchors))
+    return getattr(ctx, attr)
 
 
 def _bounds(a):
@@ -325,7 +329,7 @@ def _each(rows, scenario=None):
 
 def check_lookup_stats(run, ctx):
     """C15-E1/E2: every lookup path records exactly one of hit/miss; hit iff a value is returned"""
-    rows, anchors = lookup_scenarios(ctx)
+    rows, anchors = lookup_scenarios(ctx, member_free=True)
     n = 0
     for r in rows:
         for (ret, v) in r['outcomes']:
@@ -1545,4 +1549,50 @@ def check_lookup_by_key(run, ctx):
             run.bad('C01-P1', flav + '/lookup', '%s: %s' % (get.name, '; '.join(probs)), site=get.name, oracle='lookup by the requested key; value = clone of that entry')
         else:
             run.ok('C01-P1', flav, 'searched under the key parameter; returns a clone of the entry found')
+    return n
+
+
+def check_requeue_scenario(run, ctx, rule='C04-P3'):
+    """C04-P3 (scenario form): when the key being stored is already in the store / queue, every storing path removes its
+    old queue slot before appending it again - for every policy (a slot left behind for some policies makes the queue
+    longer than the store, and a random or positional victim can then be a dead slot)"""
+    C = Core(ctx)
+    n = 0
+    POSITION = 'core::iter::traits::iterator::Iterator::position'
+    for flav, adt in FLAVOURS:
+        for m in ('insert', 'insert_with_memory'):
+            fn = C.method(adt, m)
+            if fn is None:
+                continue
+            scope = C.scope(fn)
+            # helpers called directly (is_already_key_inserted & co) are part of the operation
+            extra = []
+            for x in list(scope):
+                for (blk, cb, how) in ctx.prog.call_edges(x):
+                    if how == 'direct' and cb.crate is ctx.core and cb not in scope and cb not in extra:
+                        extra.append(cb)
+            present = []
+            for x in scope + extra + [d for e_ in extra for d in ctx.core.descendants(e_)]:
+                for b, t in x.calls():
+                    if classify(t) == 'S?' or callee_name(t) == POSITION:
+                        present.append((x.id, b))
+            over = [(xid, bi) + x for (xid, bi), lst in C.cmp_sites(fn).items() for x in lst if x[0] == 'cmp:oversize']
+            for p in range(6):
+                a = {'policy': p, 'limit': 0, 'max_memory': 0, 'ttl': 0}
+                orc = {s_: 1 for s_ in present}
+                w = C.weigher(a, orc, root=fn)
+                sp = w.spec(fn)
+                n += 1
+                key = '%s/%s/%s' % (flav, m, POL[p])
+                bad = False
+                for n_, vs in sp.path_totals().items():
+                    for v in vs:
+                        d = _vec(v)
+                        if d['Q>'] >= 1 and d['Qrem'] < 1:
+                            bad = True
+                if bad:
+                    run.bad(rule, '%s/%s/old-slot-kept/%s' % (flav, m, POL[p]), '%s appends the key to the order queue while its old slot is still there (policy %s, key already cached): the queue '
+                            'then holds the key twice' % (fn.name, POL[p]), site=fn.name, oracle='re-storing a cached key moves its single queue slot to the back')
+                else:
+                    run.ok(rule, key + '/requeue', 'old slot removed before the key is appended')
     return n
